@@ -87,6 +87,9 @@ struct Sys {
     /// lazy mode: every thread obtains its own handle from the vector inside the thread
     lazy: Option<VecK>,
     mine: Vec<std::sync::Arc<std::sync::Mutex<Option<Ctr>>>>,
+    /// float counters only: every amount is multiplied by this power of two (1 = off). Tiny (subnormal, below f64::EPSILON)
+    /// and huge amounts stay exactly representable, so the same bit-set oracle applies; reads are divided by it again
+    scale: f64,
     /// persistent local handles, by slot
     locals: std::sync::Arc<Vec<std::sync::Mutex<Option<LCtr>>>>,
     /// what `collect` is called on (the counter itself or the vector it is a child of)
@@ -94,14 +97,14 @@ struct Sys {
     reg: Registry,
 }
 
-fn value_in(fams: &[prometheus::proto::MetricFamily]) -> u64 {
+fn value_in(fams: &[prometheus::proto::MetricFamily], scale: f64) -> u64 {
     let n = neutral_all(fams);
     let mut total = None;
     for f in &n {
         if f.name == "c" {
             for s in &f.samples {
                 if let NValue::Counter(v) = s.value {
-                    total = Some(v as u64);
+                    total = Some((v / scale) as u64);
                 }
             }
         }
@@ -138,7 +141,7 @@ impl Sys {
                     });
                 }
                 match g.as_ref().unwrap() {
-                    LCtr::F(l) => l.inc_by((1u64 << bit) as f64),
+                    LCtr::F(l) => l.inc_by((1u64 << bit) as f64 * self.scale),
                     LCtr::I(l) => l.inc_by(1u64 << bit),
                 }
             }
@@ -157,19 +160,19 @@ impl Sys {
             }
             (COp::LGet { slot }, _) => {
                 return Some(match self.locals[*slot].lock().unwrap().as_ref() {
-                    Some(LCtr::F(l)) => l.get() as u64,
+                    Some(LCtr::F(l)) => (l.get() / self.scale) as u64,
                     Some(LCtr::I(l)) => l.get(),
                     None => 0,
                 })
             }
-            (COp::IncBy(b), Ctr::F(c)) => c.inc_by((1u64 << b) as f64),
+            (COp::IncBy(b), Ctr::F(c)) => c.inc_by((1u64 << b) as f64 * self.scale),
             (COp::IncBy(b), Ctr::I(c)) => c.inc_by(1u64 << b),
             (COp::Inc, Ctr::F(c)) => c.inc(),
             (COp::Inc, Ctr::I(c)) => c.inc(),
             (COp::LocalFlush(bits), Ctr::F(c)) => {
                 let l = c.local();
                 for b in bits {
-                    l.inc_by((1u64 << b) as f64);
+                    l.inc_by((1u64 << b) as f64 * self.scale);
                 }
                 l.flush();
             }
@@ -182,10 +185,10 @@ impl Sys {
             }
             (COp::Reset, Ctr::F(c)) => c.reset(),
             (COp::Reset, Ctr::I(c)) => c.reset(),
-            (COp::Get, Ctr::F(c)) => return Some(c.get() as u64),
+            (COp::Get, Ctr::F(c)) => return Some((c.get() / self.scale) as u64),
             (COp::Get, Ctr::I(c)) => return Some(c.get()),
-            (COp::Collect, _) => return Some(value_in(&self.coll.collect())),
-            (COp::Gather, _) => return Some(value_in(&self.reg.gather())),
+            (COp::Collect, _) => return Some(value_in(&self.coll.collect(), self.scale)),
+            (COp::Gather, _) => return Some(value_in(&self.reg.gather(), self.scale)),
         }
         None
     }
@@ -198,7 +201,8 @@ impl Property for C01 {
     fn rule(&self) -> &'static str {
         "case = one shared Counter or IntCounter (standalone or a CounterVec/IntCounterVec child, registered), 2-3 threads x 1-5 \
          operations from inc_by(2^i) with a unique bit per increment, inc(), get, Collector::collect, Registry::gather, a local \
-         counter batch followed by flush, persistent local handles (35% of programs: inc_by on the handle, flush, clone of the handle \
+         counter batch followed by flush (float counters, 15%: all amounts scaled by 2^-1074 / 2^-1060 / 2^-80 / 2^-30 / 2^900), \
+         persistent local handles (35% of programs: inc_by on the handle, flush, clone of the handle \
          while an amount is pending, the handle's own get; everything still pending is flushed before the thread ends), reset (<=20% \
          of programs), and a schedule (walk / PCT / window / explicit pre-emption-bounded path) with up to 3 injected spurious \
          compare-exchange failures; after the generated tier, for a sample of small generated programs EVERY schedule with at most 2 \
@@ -222,7 +226,8 @@ impl Property for C01 {
     }
 
     fn post(&self, tier: Tier, seed: u64, stats: &mut crate::engine::Stats) -> Result<(), (String, String, Vec<u8>)> {
-        crate::exhaust::bounded_enumeration(self, tier, seed, stats)
+        crate::exhaust::bounded_enumeration(self, tier, seed, stats)?;
+        crate::freerun::free_runs(self, tier, seed, stats)
     }
 
     fn run(&self, src: &mut Src, rep: &mut Report) -> Verdict {
@@ -233,23 +238,23 @@ impl Property for C01 {
             (true, false) => {
                 let c = Counter::new("c", "h").unwrap();
                 reg.register(Box::new(c.clone())).unwrap();
-                Sys { c: Ctr::F(c.clone()), lazy: None, mine: vec![], locals: Default::default(), coll: std::sync::Arc::new(c), reg }
+                Sys { c: Ctr::F(c.clone()), lazy: None, mine: vec![], scale: 1.0, locals: Default::default(), coll: std::sync::Arc::new(c), reg }
             }
             (false, false) => {
                 let c = IntCounter::new("c", "h").unwrap();
                 reg.register(Box::new(c.clone())).unwrap();
-                Sys { c: Ctr::I(c.clone()), lazy: None, mine: vec![], locals: Default::default(), coll: std::sync::Arc::new(c), reg }
+                Sys { c: Ctr::I(c.clone()), lazy: None, mine: vec![], scale: 1.0, locals: Default::default(), coll: std::sync::Arc::new(c), reg }
             }
             (true, true) => {
                 let v = CounterVec::new(Opts::new("c", "h"), &["l"]).unwrap();
                 reg.register(Box::new(v.clone())).unwrap();
                 // placeholder handle; replaced after the run in lazy mode
-                Sys { c: Ctr::F(Counter::new("placeholder", "h").unwrap()), lazy: Some(VecK::F(v.clone())), mine: vec![], locals: Default::default(), coll: std::sync::Arc::new(v), reg }
+                Sys { c: Ctr::F(Counter::new("placeholder", "h").unwrap()), lazy: Some(VecK::F(v.clone())), mine: vec![], scale: 1.0, locals: Default::default(), coll: std::sync::Arc::new(v), reg }
             }
             (false, true) => {
                 let v = IntCounterVec::new(Opts::new("c", "h"), &["l"]).unwrap();
                 reg.register(Box::new(v.clone())).unwrap();
-                Sys { c: Ctr::I(IntCounter::new("placeholder", "h").unwrap()), lazy: Some(VecK::I(v.clone())), mine: vec![], locals: Default::default(), coll: std::sync::Arc::new(v), reg }
+                Sys { c: Ctr::I(IntCounter::new("placeholder", "h").unwrap()), lazy: Some(VecK::I(v.clone())), mine: vec![], scale: 1.0, locals: Default::default(), coll: std::sync::Arc::new(v), reg }
             }
         };
         let mut sys = sys;
@@ -262,7 +267,14 @@ impl Property for C01 {
             };
         }
         let with_reset = src.chance(48);
-        let use_inc = src.chance(64);
+        let mut use_inc = src.chance(64);
+        if float && src.chance(40) {
+            // 2^-1074 (bit 0 = the smallest subnormal), 2^-1060, 2^-80 (all amounts below f64::EPSILON), 2^-30, 2^900
+            let e = [-1074i32, -1060, -80, -30, 900][src.below(5)];
+            sys.scale = if e < -1022 { f64::from_bits(1u64 << (e + 1074)) } else { 2f64.powi(e) };
+            use_inc = false;
+            rep.class("amounts-scaled(tiny/huge powers of two)");
+        }
         let nthreads = 2 + src.below(2);
         let mut next_bit = if use_inc { 1 } else { 0 };
         let mut inc_used = false;
